@@ -139,7 +139,35 @@ class Encoder:
                 raise Unmodelled("callee " + ast.dump(f)[:60])
             args = [self.expr(a) for a in e.args]
             attrs = []
+            # An operator INPUT given by keyword (`op.Clip(x, min=lo, max=hi)`).  `param_manipulation.
+            # separate_input_attributes_from_arguments` walks the formals in order; since b7afd5e (C01-D43) an
+            # omitted optional input before a given one becomes a missing input (`Clip(x, "", hi)`).  The model
+            # has positional inputs only: the order of the real helper is restated here, a call that needs a
+            # missing input in the middle is outside the model (the semantic oracle still runs on it).
+            in_names = []
+            if dom == "_" and name != "range":
+                try:
+                    in_names = [i.name for i in onnx.defs.get_schema(name, ver, "").inputs]
+                except Exception:
+                    in_names = []
+            kw_inputs = {kw.arg: kw.value for kw in e.keywords if kw.arg in in_names}
+            omitted = False
+            for i, nm in enumerate(in_names):
+                if i < len(e.args):
+                    continue
+                if nm in kw_inputs:
+                    v = kw_inputs[nm]
+                    if isinstance(v, ast.Constant) and v.value is None:
+                        omitted = True
+                        continue
+                    if omitted:
+                        raise Unmodelled("a missing operator input before an input given by keyword")
+                    args.append(self.expr(v))
+                else:
+                    omitted = True
             for kw in e.keywords:
+                if kw.arg in kw_inputs:
+                    continue
                 if kw.arg is None:
                     raise Unmodelled("**kwargs")
                 if isinstance(kw.value, ast.Name):
@@ -209,7 +237,11 @@ class Encoder:
                 return sx("tuple", sx(*self.names_of(lhs)), self.expr(rhs))
             return sx("assign", self.names_of(lhs)[0], self.expr(rhs))
         if isinstance(s, ast.If):
-            if len(s.body) == 1 and isinstance(s.body[0], ast.Break) and not s.orelse:
+            if len(s.body) == 1 and isinstance(s.body[0], ast.Break):
+                if s.orelse:
+                    # refused since a0a3f70 (C01-D44: the else statements used to be dropped silently); the model has
+                    # no such statement, the refusal is checked by the crash oracle and the `break-else` stream
+                    raise Unmodelled("`if b: break` with an else branch")
                 return sx("break", self.expr(s.test))
             return sx("if", self.expr(s.test), sx(*self.block(s.body)), sx(*self.block(s.orelse)))
         if isinstance(s, ast.For):
@@ -277,7 +309,14 @@ class Encoder:
                 ret = str(len(r.slice.elts) if isinstance(r.slice, ast.Tuple) else 1)
             else:
                 ret = "1"
-        return sx("func", fn.name, sx("params", *params), sx("ret", ret), sx("opset", str(DEFAULT_OPSET_VERSION)),
+        # `@script(default_opset=<alias>)`: the version the converter takes unqualified operators from
+        dver = DEFAULT_OPSET_VERSION
+        for d in fn.decorator_list:
+            if isinstance(d, ast.Call):
+                for kw in d.keywords:
+                    if kw.arg == "default_opset" and isinstance(kw.value, ast.Name) and kw.value.id in self.op_aliases:
+                        dver = self.op_aliases[kw.value.id]
+        return sx("func", fn.name, sx("params", *params), sx("ret", ret), sx("opset", str(dver)),
                   sx("body", *self.block(fn.body)))
 
 
@@ -289,11 +328,55 @@ def _env_lit(kind: str, v) -> str:
     raise Unmodelled(f"closure / global value of kind {kind}")
 
 
+def _ast_assigned(stmts) -> set:
+    out = set()
+    for s in stmts:
+        for n in ast.walk(s):
+            if isinstance(n, ast.Assign):
+                for t in n.targets:
+                    out |= {x.id for x in ast.walk(t) if isinstance(x, ast.Name)}
+            elif isinstance(n, ast.For) and isinstance(n.target, ast.Name):
+                out.add(n.target.id)
+    return out
+
+
+def fold_constant_ifs(fn: ast.FunctionDef, env) -> None:
+    """`AstAnalyzer._compute_constant_if_conditions` + `_translate_if_stmt`, restated on the source: `if name:` where
+    `name` is neither assigned in the function nor one of its parameters (11e898c, was C01-D45) and is bound in the
+    surroundings (closure first, then module globals) is replaced by the branch its value selects."""
+    closure, globs = env
+    outer = {}
+    for n, _, v in globs:
+        outer[n] = v
+    for n, _, v in closure:
+        outer[n] = v
+    assigned = _ast_assigned(fn.body) | {a.arg for a in fn.args.args}
+
+    def fold(stmts):
+        out = []
+        for st in stmts:
+            if isinstance(st, ast.If):
+                t = st.test
+                if isinstance(t, ast.Name) and t.id not in assigned and t.id in outer \
+                        and not (len(st.body) == 1 and isinstance(st.body[0], ast.Break)):
+                    out += fold(st.body if bool(outer[t.id]) else st.orelse)
+                    continue
+                st.body, st.orelse = fold(st.body), fold(st.orelse)
+            elif isinstance(st, (ast.For, ast.While)):
+                st.body = fold(st.body)
+            out.append(st)
+        return out
+
+    fn.body = fold(fn.body)
+
+
 def encode_function(src: str, functions: dict | None = None, env=None) -> str:
     """`src` = source of one decorated function (decorator lines allowed).  `env` = (closure, globals): lists of
     (name, kind, value) the function may read from its surroundings; the Lean side resolves the lookup order."""
     tree = ast.parse(src)
     fn = next(n for n in tree.body if isinstance(n, ast.FunctionDef))
+    if env is not None:
+        fold_constant_ifs(fn, env)
     f = Encoder(functions=functions).function(fn)
     if env is None:
         return f
